@@ -62,6 +62,7 @@ func (d *FileDriver) Init() error {
 					d.file.Close()
 					err := d.openFile()
 					d.lock.Unlock()
+					verifPoint("file.reopened")
 					if err != nil {
 						return
 					}
@@ -79,6 +80,7 @@ func (d *FileDriver) Send(key, data []byte) error {
 	d.lock.RLock()
 	w := d.w
 	d.lock.RUnlock()
+	verifPoint("file.send.picked")
 	_, err := fmt.Fprint(w, string(data)+d.lineSeparator)
 	return err
 }
